@@ -90,7 +90,7 @@ def _check(api):
         pass
 
 
-m2task('recvRecord/delivery', ('C02', 'C01', 'C08'), RLQ + 'recvRecord', SPEC, check=_check, setup=_setup,
+m2task('recvRecord/delivery', ('C02', 'C01', 'C08'), RLQ + 'recvRecord', SPEC, check=_check, setup=_setup, opts={'ground_feasible': True},
        doc='recvRecord hands a record to its caller only if one of the unprotect functions returned normally for it '
            '(or it is a plaintext CCS / early alert / no keys are installed), its plaintext is within recv_record_limit, '
            'and the early-data tolerance flag is cleared')
